@@ -794,6 +794,10 @@ fn ep_c12(s: &mut S, r: &mut Rng, maxc: usize, maxr: usize) {
         if r.chance(1, 4) {
             input = coarse_string(r, c, rr);
         }
+        if r.chance(1, 4) {
+            input.push_str(&gen::messy_string(r));
+            input.push_str(&gen::print(r));
+        }
         let cs: Vec<char> = input.chars().collect();
         s.feed_str(a, &input, true);
         // pieces
@@ -851,6 +855,7 @@ fn scrolly(r: &mut Rng, c: usize, rr: usize) -> String {
 
 fn ep_c13(s: &mut S, r: &mut Rng, maxc: usize, maxr: usize) {
     s.episode("C13");
+    let with_ris = r.chance(1, 3);
     let (c, rr) = gen::size(r, maxc, maxr);
     let lim = *r.pick(&[0i64, 1, 2, 9, 10, 11, 20, 25]);
     let slot = s.new_vt(c, rr, lim);
@@ -866,6 +871,9 @@ fn ep_c13(s: &mut S, r: &mut Rng, maxc: usize, maxr: usize) {
         let mut t = String::new();
         for _ in 0..r.range(1, 8) {
             t.push_str(&scrolly(r, c, rr));
+            if with_ris && r.chance(1, 12) {
+                t.push_str("\x1bc"); // also from inside an alternate-screen excursion
+            }
         }
         let consume = match r.n(3) {
             0 => false,
